@@ -145,3 +145,158 @@ package secp256k1
 //@   props C02
 //@   ensures val(z) == pow(old(val(x)), N-2) && result == z
 //@   modifies z.m
+//@
+//@ type Point
+//@   inv self.isValid ==> oncurve(val(self.x), val(self.y), val(self.z))
+//@
+//@ func (*Point).addComplete
+//@   weak v, p, q
+//@   props C03 C04 C16
+//@   proves val(v.x) == rcb_add_x(old(val(p.x)), old(val(p.y)), old(val(p.z)), old(val(q.x)), old(val(q.y)), old(val(q.z)))
+//@   proves val(v.y) == rcb_add_y(old(val(p.x)), old(val(p.y)), old(val(p.z)), old(val(q.x)), old(val(q.y)), old(val(q.z)))
+//@   proves val(v.z) == rcb_add_z(old(val(p.x)), old(val(p.y)), old(val(p.z)), old(val(q.x)), old(val(q.y)), old(val(q.z)))
+//@   using rcb_add(old(val(p.x)), old(val(p.y)), old(val(p.z)), old(val(q.x)), old(val(q.y)), old(val(q.z)))
+//@   ensures old(oncurve(val(p.x), val(p.y), val(p.z)) && oncurve(val(q.x), val(q.y), val(q.z))) ==> oncurve(val(v.x), val(v.y), val(v.z)) && pt(val(v.x), val(v.y), val(v.z)) == padd(old(pt(val(p.x), val(p.y), val(p.z))), old(pt(val(q.x), val(q.y), val(q.z))))
+//@   ensures result == v
+//@   modifies v.x, v.y, v.z
+//@
+//@ func (*Point).addMixed
+//@   weak v, p
+//@   props C03 C05
+//@   proves val(v.x) == rcb_add_x(old(val(p.x)), old(val(p.y)), old(val(p.z)), old(val(x2)), old(val(y2)), 1)
+//@   proves val(v.y) == rcb_add_y(old(val(p.x)), old(val(p.y)), old(val(p.z)), old(val(x2)), old(val(y2)), 1)
+//@   proves val(v.z) == rcb_add_z(old(val(p.x)), old(val(p.y)), old(val(p.z)), old(val(x2)), old(val(y2)), 1)
+//@   using rcb_add(old(val(p.x)), old(val(p.y)), old(val(p.z)), old(val(x2)), old(val(y2)), 1)
+//@   using aff_coords(old(val(x2)), old(val(y2)))
+//@   ensures old(oncurve(val(p.x), val(p.y), val(p.z)) && onaff(val(x2), val(y2))) ==> oncurve(val(v.x), val(v.y), val(v.z)) && pt(val(v.x), val(v.y), val(v.z)) == padd(old(pt(val(p.x), val(p.y), val(p.z))), old(aff(val(x2), val(y2))))
+//@   ensures result == v
+//@   modifies v.x, v.y, v.z
+//@
+//@ func (*Point).doubleComplete
+//@   weak v, p
+//@   props C03 C04 C16
+//@   proves val(v.x) == rcb_dbl_x(old(val(p.x)), old(val(p.y)), old(val(p.z)))
+//@   proves val(v.y) == rcb_dbl_y(old(val(p.x)), old(val(p.y)), old(val(p.z)))
+//@   proves val(v.z) == rcb_dbl_z(old(val(p.x)), old(val(p.y)), old(val(p.z)))
+//@   using rcb_dbl(old(val(p.x)), old(val(p.y)), old(val(p.z)))
+//@   ensures old(oncurve(val(p.x), val(p.y), val(p.z))) ==> oncurve(val(v.x), val(v.y), val(v.z)) && pt(val(v.x), val(v.y), val(v.z)) == smul(2, old(pt(val(p.x), val(p.y), val(p.z))))
+//@   ensures result == v
+//@   modifies v.x, v.y, v.z
+//@
+//@ func (*Point).Identity
+//@   props C03 C18
+//@   ensures v.isValid && val(v.x) == 0 && val(v.y) == 1 && val(v.z) == 0 && abs(v) == O && result == v
+//@   using pt_identity()
+//@   modifies *v
+//@
+//@ func (*Point).Generator
+//@   props C03 C18
+//@   ensures v.isValid && val(v.x) == GX && val(v.y) == GY && val(v.z) == 1 && abs(v) == G && result == v
+//@   using pt_generator()
+//@   using aff_coords(GX, GY)
+//@   modifies *v
+//@
+//@ func (*Point).Add
+//@   props C03 C18
+//@   panics !p.isValid || !q.isValid
+//@   ensures v.isValid && abs(v) == padd(old(abs(p)), old(abs(q))) && result == v
+//@   modifies *v
+//@
+//@ func (*Point).Double
+//@   props C03 C18
+//@   panics !p.isValid
+//@   ensures v.isValid && abs(v) == smul(2, old(abs(p))) && result == v
+//@   modifies *v
+//@
+//@ func (*Point).Subtract
+//@   props C03 C18
+//@   panics !p.isValid || !q.isValid
+//@   ensures v.isValid && abs(v) == padd(old(abs(p)), pneg(old(abs(q)))) && result == v
+//@   modifies *v
+//@
+//@ func (*Point).Negate
+//@   props C03 C18
+//@   panics !p.isValid
+//@   ensures v.isValid && abs(v) == pneg(old(abs(p))) && result == v
+//@   using pt_neg(old(val(p.x)), old(val(p.y)), old(val(p.z)))
+//@   modifies *v
+//@
+//@ func (*Point).ConditionalNegate
+//@   props C03 C17 C18
+//@   panics !p.isValid
+//@   ensures v.isValid && abs(v) == ite(ctrl == 0, old(abs(p)), pneg(old(abs(p)))) && result == v
+//@   using pt_neg(old(val(p.x)), old(val(p.y)), old(val(p.z)))
+//@   modifies *v
+//@
+//@ func (*Point).uncheckedConditionalSelect
+//@   props C03 C17 C18
+//@   weak v, a, b
+//@   ensures val(v.x) == ite(ctrl == 0, old(val(a.x)), old(val(b.x)))
+//@   ensures val(v.y) == ite(ctrl == 0, old(val(a.y)), old(val(b.y)))
+//@   ensures val(v.z) == ite(ctrl == 0, old(val(a.z)), old(val(b.z)))
+//@   ensures result == v
+//@   modifies v.x, v.y, v.z
+//@
+//@ func (*Point).ConditionalSelect
+//@   props C03 C17 C18
+//@   weak a, b
+//@   requires ctrl == 0 ==> onc(a)
+//@   requires ctrl != 0 ==> onc(b)
+//@   panics !a.isValid || !b.isValid
+//@   ensures v.isValid && abs(v) == ite(ctrl == 0, old(abs(a)), old(abs(b))) && result == v
+//@   ensures val(v.x) == ite(ctrl == 0, old(val(a.x)), old(val(b.x)))
+//@   ensures val(v.y) == ite(ctrl == 0, old(val(a.y)), old(val(b.y)))
+//@   ensures val(v.z) == ite(ctrl == 0, old(val(a.z)), old(val(b.z)))
+//@   modifies *v
+//@
+//@ func (*Point).Equal
+//@   props C03 C17
+//@   panics !v.isValid || !p.isValid
+//@   ensures result == ite(abs(v) == abs(p), 1, 0)
+//@   using pt_equal(val(v.x), val(v.y), val(v.z), val(p.x), val(p.y), val(p.z))
+//@
+//@ func (*Point).IsIdentity
+//@   props C03 C17
+//@   panics !v.isValid
+//@   ensures result == ite(abs(v) == O, 1, 0)
+//@   using pt_infinity(val(v.x), val(v.y), val(v.z))
+//@
+//@ func (*Point).rescale
+//@   props C03 C06
+//@   panics !p.isValid
+//@   ensures v.isValid && abs(v) == old(abs(p)) && result == v
+//@   ensures old(abs(p)) != O ==> val(v.z) == 1 && val(v.x) == affx(old(abs(p))) && val(v.y) == affy(old(abs(p)))
+//@   ensures old(abs(p)) == O ==> val(v.x) == 0 && val(v.y) == 1 && val(v.z) == 0
+//@   using pt_infinity(old(val(p.x)), old(val(p.y)), old(val(p.z)))
+//@   using pt_affine(old(val(p.x)), old(val(p.y)), old(val(p.z)))
+//@   using pt_identity()
+//@   modifies *v
+//@
+//@ func (*Point).IsYOdd
+//@   props C03 C17
+//@   panics !v.isValid
+//@   ensures result == ite(abs(v) == O, 1, lift(affy(abs(v))) % 2)
+//@
+//@ func (*Point).Set
+//@   props C03 C18
+//@   panics !p.isValid
+//@   ensures v.isValid && abs(v) == old(abs(p)) && result == v
+//@   ensures val(v.x) == old(val(p.x)) && val(v.y) == old(val(p.y)) && val(v.z) == old(val(p.z))
+//@   modifies *v
+//@
+//@ func NewGeneratorPoint
+//@   props C03 C18
+//@   ensures result.isValid && abs(result) == G
+//@   fresh result
+//@
+//@ func NewIdentityPoint
+//@   props C03 C18
+//@   ensures result.isValid && abs(result) == O && val(result.x) == 0 && val(result.y) == 1 && val(result.z) == 0
+//@   using pt_identity()
+//@   fresh result
+//@
+//@ func NewPointFrom
+//@   props C03 C18
+//@   panics !p.isValid
+//@   ensures result.isValid && abs(result) == abs(p)
+//@   fresh result
